@@ -212,6 +212,13 @@ Definition decider_random_float (k : dkind) : M value :=
         end)
   end.
 
+(* get_weights().get(alt, 1.0): alternatives that are not grammar symbols count as weight 1 *)
+Definition prod_weight (g : grammar) (x : ty) : Q :=
+  match sym_of_ty x with
+  | Some s => if is_registered g s then wget (weights_of g) s else 1%Q
+  | None => 1%Q
+  end.
+
 (* the weights ProgressivelyTerminalDecider hands to choice_weighted *)
 Fixpoint prog_weights (g : grammar) (target : Z) (ctx : sctx) (l : list ty) : res (list Q) :=
   match l with
@@ -219,13 +226,14 @@ Fixpoint prog_weights (g : grammar) (target : Z) (ctx : sctx) (l : list ty) : re
   | x :: t =>
       let* w := (if in_rec g x then Ok (target / (c_depth ctx + 1))
                  else let* v := gdist_ty g x in Ok (target - v)) in
-      (* get_weights().get(alt, 1.0): alternatives that are not grammar symbols count as weight 1 *)
-      let gw := (match sym_of_ty x with
-                 | Some s => if is_registered g s then wget (weights_of g) s else 1%Q
-                 | None => 1%Q end) in
       let* r := prog_weights g target ctx t in
-      Ok ((inject_Z w * gw)%Q :: r)
+      Ok ((inject_Z w * prod_weight g x)%Q :: r)
   end.
+
+(* `if not any(weights)`: when the depth heuristic leaves no candidate the production weights alone decide (repair of F42) *)
+Definition prog_final_weights (g : grammar) (target : Z) (ctx : sctx) (alts : list ty) : res (list Q) :=
+  let* ws := prog_weights g target ctx alts in
+  Ok (if forallb (fun q => Qeq_bool q 0) ws then map (prod_weight g) alts else ws).
 
 (* choose_production_alternatives.  [key] is the type the choice is made for (the abstract class or
    the Union), [alts] the candidates as types. *)
@@ -258,8 +266,8 @@ Definition choose (g : grammar) (k : dkind) (key : ty) (alts : list ty) (ctx : s
   | DProg =>
       do* mx := lift (max_node_depth g) in
       do* target := lift (if mx =? INF then let* mn := min_tree_depth g in Ok (mn * zlen (g_rec g)) else Ok mx) in
-      do* ws := lift (prog_weights g target ctx alts) in
-      on_src (fun s => choice_weighted s alts ws)
+      do* ws' := lift (prog_final_weights g target ctx alts) in
+      on_src (fun s => choice_weighted s alts ws')
   | DDsge D =>
       do* v := dsge_read key in
       do* l := lift (filter_res (fits g D ctx) alts) in
